@@ -644,7 +644,8 @@ pub fn exact_search_on(
     w: &mut Worker,
 ) -> Result<(), oracle::Fail> {
     let n = model.len();
-    let mut counts: Vec<usize> = vec![0, 1, 2, n.saturating_sub(1), n, n + 1];
+    // "all count >= 0": both ends of the domain too
+    let mut counts: Vec<usize> = vec![0, 1, 2, n.saturating_sub(1), n, n + 1, usize::MAX];
     counts.sort();
     counts.dedup();
     with_metric!(metric, D => {
